@@ -17,7 +17,7 @@ import (
 
 // C07: reconfiguration is atomic and race-free under concurrent traffic.
 
-// Four configurations that differ in every observable aspect, all of them
+// Configurations that differ in every observable aspect (two of them GROWN versions of two others), all of them
 // allowing https://shared.example so that one request is answered differently
 // under each of them (and under each debug mode).
 var c07Pool = []Cfg{
@@ -28,9 +28,13 @@ var c07Pool = []Cfg{
 	{Origins: SS("https://shared.example"), Credentialed: true, RequestHeaders: SS("*"), MaxAge: 600, Status: 299, PNANoCORS: true},
 	// a large configuration (behaviour that depends on size thresholds; a Config() call on it takes long enough for a Reconfigure to land inside)
 	{Origins: c07ManyOrigins(300), Methods: SS("PUT", "QUERY"), RequestHeaders: c07ManyNames(40), MaxAge: 7, Status: 201, ResponseHeaders: c07ManyNames(30)},
+	// configurations 5 and 1 GROWN: the same origin list with newcomers appended and every other setting different (the
+	// switches that bear on origin validation unchanged) - what an incremental update of shared structures would pick on
+	{Origins: append(c07ManyOrigins(300), "https://newcomer.example", "https://*.late.example:*"), Methods: SS("PATCH"), RequestHeaders: SS("X-G"), MaxAge: 60, Status: 204, ResponseHeaders: SS("X-RG")},
+	{Origins: SS("https://shared.example", "https://a.example", "https://newcomer.example", "https://*.late.example:*"), Methods: SS("QUERY"), RequestHeaders: SS("X-H"), MaxAge: 61, Status: 203, ResponseHeaders: SS("X-RH")},
 }
 
-const c07NCfg = 5 // configurations 1..5 of c07Pool
+const c07NCfg = 7 // configurations 1..7 of c07Pool
 
 func c07ManyOrigins(n int) []Str {
 	out := SS("https://shared.example", "https://a.example")
@@ -52,7 +56,7 @@ var c07Invalid = Cfg{Origins: SS("https://shared.example", "https://shared.examp
 
 type COp struct {
 	Kind string `json:"kind"`          // reconf | reconf_nil | reconf_invalid | debug | config
-	Cfg  int    `json:"cfg,omitempty"` // 1..4 for reconf
+	Cfg  int    `json:"cfg,omitempty"` // 1..c07NCfg for reconf
 	On   bool   `json:"on,omitempty"`  // for debug
 }
 
@@ -131,6 +135,7 @@ var c07Requests = func() []Req {
 		Preflight(o, "GET").With(hACRPN, "true"), Preflight("https://a.example", "PUT"), Preflight("https://x.b.example:8080", "PATCH", "x-b"),
 		Actual("GET", o), Actual("OPTIONS", o), Actual("GET", "https://a.example"), Actual("POST", "https://other.example"),
 		{Method: "GET"}, {Method: "OPTIONS"},
+		Actual("GET", "https://newcomer.example"), Preflight("https://newcomer.example", "PATCH"), Actual("PUT", "https://x.late.example:444"), Preflight("https://h7.big0.example:8007", "PUT"),
 	}
 }()
 
@@ -352,7 +357,7 @@ func planKeys(p map[string][]COp) []string {
 
 func TestC07(t *testing.T) {
 	Prop[C07Case]{ID: "C07", Part: "schedule", Gen: c07Gen, Check: c07Check,
-		Rule: "(a) owned schedule: start state in {passthrough, 5 configurations differing in every observable aspect, one of them with 300 origin patterns} x debug, one of 14 requests (succeeding/failing preflights, actual, non-CORS) and an injection plan: at 1-3 hand-over points " +
+		Rule: "(a) owned schedule: start state in {passthrough, 7 configurations differing in every observable aspect - one with 300 origin patterns, two that are another one with origins appended and everything else changed} x debug, one of 18 requests (succeeding/failing preflights, actual, non-CORS) and an injection plan: at 1-3 hand-over points " +
 			"(k-th ResponseWriter.Header() call, WriteHeader, Write, entry of the wrapped handler) 1-4 operations from {Reconfigure(cfg), Reconfigure(nil), Reconfigure(invalid), SetDebug(b), Config()} run to completion on another goroutine. " +
 			"Oracle: the response equals the response of a FRESH middleware in one single (configuration, debug) state that was current between request start and end; every injected Config() equals the normal form of the state current at that moment; the final state matches the model, and the 14 requests served afterwards are all answered by the final state alone. " +
 			"non-trivial = the candidate states answer the request differently and at least two operations ran or one ran after the first hand-over; distinct by (start, request, plan).",
@@ -517,7 +522,7 @@ func c07StressCheck(c C07Stress, rec *Recorder) *Disc {
 
 func TestC07Stress(t *testing.T) {
 	Prop[C07Stress]{ID: "C07", Part: "stress", Gen: c07StressGen, Check: c07StressCheck,
-		Rule: "(b) stress under the Go race detector: one writer executes a drawn sequence of 200-2000 operations (Reconfigure to one of 5 configurations (one of them with 300 origin patterns) / nil / invalid, SetDebug, Config) publishing begun/completed counters; 8-32 reader goroutines issue the 14 requests and Config() calls, " +
+		Rule: "(b) stress under the Go race detector: one writer executes a drawn sequence of 200-2000 operations (Reconfigure to one of 7 configurations (one with 300 origin patterns, two grown from others) / nil / invalid, SetDebug, Config) publishing begun/completed counters; 8-32 reader goroutines issue the 18 requests and Config() calls, " +
 			"reading 'completed' before and 'begun' after each call; the observation must be the precomputed answer of a state whose index lies in that window; once the writer and all readers have stopped, Config() and the 14 requests are answered by the final state. Any data race reported by the detector fails the run. " +
 			"evaluations = concurrent observations checked; non-trivial = every drawn operation sequence (each is run against live readers); distinct by sequence.",
 		Assumptions: []string{"schedule-dependent: a failure is reported with the operation history and the offending observation; it may not reproduce on replay"}}.Run(t)
@@ -757,7 +762,7 @@ func c07WritersCheck(c C07Writers, rec *Recorder) *Disc {
 
 func TestC07Writers(t *testing.T) {
 	Prop[C07Writers]{ID: "C07", Part: "writers", Gen: c07WritersGen, Check: c07WritersCheck,
-		Rule: "(c) two concurrent writers and five concurrent readers (each repeating one kind of observation; the relative timing of the two calls is swept over 0-12 us): 300-3000 rounds; in each round two calls (Reconfigure to one of 5 configurations (one of them with 300 origin patterns) / nil / invalid, SetDebug; 60% of rounds pair a configuration change with a debug change; 25% are preceded by two deterministic rounds establishing (cfgK, debug on) and then race Reconfigure(nil) against SetDebug or Reconfigure(cfg)) are released at the same instant on two goroutines; " +
+		Rule: "(c) two concurrent writers and five concurrent readers (each repeating one kind of observation; the relative timing of the two calls is swept over 0-12 us): 300-3000 rounds; in each round two calls (Reconfigure to one of 7 configurations (one with 300 origin patterns, two grown from others) / nil / invalid, SetDebug; 60% of rounds pair a configuration change with a debug change; 25% are preceded by two deterministic rounds establishing (cfgK, debug on) and then race Reconfigure(nil) against SetDebug or Reconfigure(cfg)) are released at the same instant on two goroutines; " +
 			"a serial order of the two calls must explain BOTH the final state (Config() and the answers to the 14 requests equal those of a fresh middleware in the state that order ends in) AND every observation the readers made meanwhile (each must be one of the three states that order passes through); lost updates and transient never-current states are thereby visible; whenever a round ends in passthrough, a quiescent Reconfigure(cfg1) follows and must give (cfg1, debug off), which reveals a debug flag wrongly kept by a passthrough middleware. Runs under the race detector. " +
 			"evaluations = rounds; non-trivial = every drawn round sequence; distinct by sequence.",
 		Assumptions: []string{"schedule-dependent like the stress part: a lost update needs the two calls to overlap"}}.Run(t)
